@@ -328,14 +328,17 @@ pub fn compile_mir_to_lir(heap: &mut Heap, sources: mir::Sources) -> lir::Source
     functions,
   } = sources;
 
-  // First pass: identify enum types with Int31 variants
+  // First pass: identify enum types with Int31 or Unboxed variants
   // These types need to use AnyPointer in WASM GC because they can hold either
-  // a struct reference or ref.i31
+  // a struct reference or ref.i31, or a reference to the unboxed payload type,
+  // which is not a subtype of the enum's struct type.
   let mut types_needing_any_pointer: TypesNeedingAnyPointer = HashSet::new();
   for type_def in &type_definitions {
     if let mir::TypeDefinitionMappings::Enum(variants) = &type_def.mappings {
-      let has_i31_variant = variants.iter().any(|v| matches!(v, mir::EnumTypeDefinition::Int31));
-      if has_i31_variant {
+      let has_non_subtype_variant = variants
+        .iter()
+        .any(|v| matches!(v, mir::EnumTypeDefinition::Int31 | mir::EnumTypeDefinition::Unboxed(_)));
+      if has_non_subtype_variant {
         types_needing_any_pointer.insert(type_def.name);
       }
     }
